@@ -23,6 +23,14 @@ func (m *Manager) SyncLoop(ctx context.Context, errCh chan<- error) {
 	metricsTicker := time.NewTicker(30 * time.Second)
 	defer metricsTicker.Stop()
 
+	// Headers and data restored from the persisted cache are marked as seen, so neither ingress
+	// delivers them again: apply what they already allow now instead of waiting for an event
+	// of a later block, which may never come.
+	if err := m.trySyncNextBlock(ctx, m.daHeight.Load()); err != nil {
+		errCh <- fmt.Errorf("failed to sync next block: %w", err)
+		return
+	}
+
 	for {
 		select {
 		case <-daTicker.C:
